@@ -14,6 +14,7 @@ from lib import fw
 
 PROP = 'C05'
 COQ_HEADER = 'From FV Require Import Common.NanQ Model.C05_Model.'
+# (the model instantiates the functions translated into gen/Gen_metrics.v and gen/Gen_models.v)
 COQ_AGREE = 'C05_agree'
 COQ_MODEL_TARGETS = ['Model/C05_Model']
 RULE = ('every Metric subclass of fedjax.core.metrics with a grid of constructor arguments (per-position, per-domain, '
@@ -28,7 +29,10 @@ RULE = ('every Metric subclass of fedjax.core.metrics with a grid of constructor
         'integer-valued statistics compared to 2^-22 relative (one float32 rounding of accum/weight), cross-entropy-valued '
         'ones to 1e-5(1+|x|), inside Coq; non-trivial = at least two real rows spread over at least two batches or at least '
         'one masked row; distinct = distinct case JSON')
-TRUSTED = ['tools/lib/qfun.py reading of jnp scalar code (+ - * /, comparisons, where, maximum, sum) over NanQ (Common/NanQ.v)',
+TRUSTED = ['tools/lib/pat.py structural anchors: the recognised statement sequences of apply_mask / evaluate_batch / '
+           '_evaluate_model_step / evaluate_model / ModelEvaluator client functions and their Gallina reading '
+           '(rows = leading dimension, tree_map over Stat fields = per row, dict of metrics = per metric)',
+           'tools/lib/qfun.py reading of jnp scalar code (+ - * /, comparisons, where, maximum, sum) over NanQ (Common/NanQ.v)',
            'jax.vmap = map over rows; jnp.where / apply_mask forward semantics (lazy selection)',
            'row-major flattening of higher-rank Stat fields = order of the entry lists handed to Coq']
 ASSUMPTIONS = ['statistics of real (unmasked) examples are finite and in the Stat\'s documented domain '
@@ -626,6 +630,19 @@ def oracle(case, obs):
       out.append(('empty-nonzero', f'{name}: empty / fully masked input gives a non-zero result'))
   if real_finite and any(v is None for v in res):
     out.append(('masked-leak-nan', f'{name}: finite real examples but a NaN / Inf result (a masked row leaked?)'))
+  if real_finite:
+    # independent reference: the definition sum(accum_i) / sum(weight_i) (0 when the weights sum to 0), resp. sum(accum_i)
+    reals = [obs['rows'][str(r)] for b in obs['batches']
+             for r, m in zip(b['rows'], b['mask'] or [True] * len(b['rows'])) if m]
+    for i in range(obs['K']):
+      if obs['stat_kind'] == 'mean':
+        sa, sw = sum(r[i][0] for r in reals), sum(r[i][1] for r in reals)
+        want = sa / sw if sw != 0 else 0.0
+      else:
+        want = sum(r[i] for r in reals)
+      if res[i] is None or abs(res[i] - want) > tol * (1 + abs(want)):
+        out.append(('not-sum-of-fields', f'{name}: entry {i} is {res[i]}, the single-example statistics give {want}'))
+        break
   if ref is not None:
     bad = [i for i, (a, b) in enumerate(zip(res, ref))
            if (a is None) != (b is None) or (a is not None and abs(a - b) > tol * (1 + abs(b)))]
@@ -764,7 +781,8 @@ def encode(case, obs):
     obs = {**obs, 'result': obs['forms']['left']['result'], 'stat': None}
     case = {**case, 'api': 'evaluate_model'}
   api = case['api']
-  capi = 'ApiModel' if api not in ('evaluate_batch', 'evaluate_batch_nomask') else f'(ApiBatch {fw.cbool(api == "evaluate_batch")})'
+  capi = {'evaluate_model': 'ApiModel', 'evaluator_global': 'ApiEvaluator', 'evaluator_per_client': 'ApiEvaluator',
+          'evaluate_batch': 'ApiBatch', 'evaluate_batch_nomask': 'ApiBatch'}[api]
   mean = obs['stat_kind'] == 'mean'
 
   def row(i):
@@ -774,8 +792,8 @@ def encode(case, obs):
     return _nql(r)
   bs = []
   for b in obs['batches']:
-    mask = b['mask'] if b['mask'] is not None else [True] * len(b['rows'])
-    bs.append(f'({fw.blist(mask)}, [' + '; '.join(row(i) for i in b['rows']) + '])')
+    mask = 'None' if b['mask'] is None else f'(Some {fw.blist(b["mask"])})'
+    bs.append(f'({mask}, [' + '; '.join(row(i) for i in b['rows']) + '])')
   c = f'{"CMean" if mean else "CSum"} {capi} {obs["K"]}%nat [' + '; '.join(bs) + ']'
   tol = TOL_CE if _value_kind(case) == 'ce' else TOL_INT
   st = 'None' if obs['stat'] is None else f'(Some {_nql(obs["stat"])})'
